@@ -18,7 +18,75 @@ def plan(tier, seed):
     sp = [{'kind': 'weird'}]
     sp += progwork.shards(tier, 1200, 60000, exhaustive=False)
     from hv import realwork
+    # every shipped line demanded on its own next to Form 1040, for several kinds of filer
+    k = 4 if tier == 'quick' else 16
+    for y in (2021, 2022, 2023):
+        for s_ in range(k):
+            sp.append({'kind': 'lines', 'year': y, 'slice': s_, 'of': k, 'filers': 2 if tier == 'quick' else 8})
     return sp + realwork.shards('C12', tier)
+
+
+FILERS = [('S', 0, 48000, False), ('QSS', 2, 170000, True), ('MFJ', 1, 95000, True), ('HOH', 1, 30000, False),
+          ('MFS', 0, 260000, True), ('MFJ', 3, 520000, False), ('S', 0, 9000, True), ('HOH', 2, 130000, True)]
+
+
+def run_lines(spec, tier, seed):
+    """Each line of each shipped (non-input) form is demanded by name, next to Form
+    1040, from filers who have *no* statements beyond a W-2 (empty sums, zero
+    counts) and from persona filers: a definition answering with another type than
+    its line declares is rejected by the framework (correctly) - and the return
+    cannot be solved, which is the shipped definition's breach of the discipline."""
+    from hv import hx, scen, realwork
+    from hv.common import h as _h
+
+    def h(o, n):
+        return int(_h(o, n), 16)
+    res = Result()
+    year = spec['year']
+    todo = []
+    for cls in hx.catalogue(year):
+        if issubclass(cls, hx.form.InputForm):
+            continue
+        insts = hx.instances_for(cls)
+        for inst in insts[:1] if len(insts) > 1 and tier == 'quick' else insts:
+            fo = cls(instance=inst) if inst else cls()
+            for f in fo.fields():
+                todo.append((cls.form_name, fo.name(), f.name()))
+    todo = [t for n, t in enumerate(todo) if n % spec['of'] == spec['slice']]
+    for form_name, full, line in todo:
+        for fi in range(spec['filers']):
+            # the first filer is the same for every line; the others rotate with the line and the seed
+            st, kids, wages, nc = FILERS[0] if fi == 0 else FILERS[1 + (h([seed, line, fi], 6) % (len(FILERS) - 1))]
+            if fi >= 4:
+                fam = scen.FAMILIES[h([seed, line, fi, 'fam'], 6) % len(scen.FAMILIES)]
+                p = scen.Persona(year, fam, f'c12l:{seed}:{h(line, 6) % 40}')
+            else:
+                p = scen.plain_persona(year, st, wages, key=f'c12l:{st}', deps_ctc=kids, nc=nc or form_name.startswith('nc_'))
+            with trace.Tracer(ceiling=realwork.CEILING) as t:
+                out = drive.run_solver(hx.catalogue(year), drive.config_from({}), sorted({'1040', full}), field_names=[line],
+                                       answer=lambda missing, needed_by, p=p: p.answer(missing), tracer=t, sort_key=drive.plain_name_key)
+            tv = trace.TraceView(t.events)
+            res.evaluations += 1
+            res.count('line_demands')
+            res.count('line_demand_' + drive.verdict_class(out).split(':')[0])
+            if line in tv.stored:
+                res.add('lines_demanded_and_stored', f'{year}|{realwork.key_line(line + " ")}')
+            if out.exc is None:
+                v, n = oracles.c12(out, tv)
+                res.count('stores_checked', n)
+                for suffix, msg in v:
+                    res.violation(f'C12|real|{year}|{suffix}|{realwork.key_line(msg)}', f'{year} {p.describe()} demanding {line}: {msg}', {'engine': 'lines', 'persona': p.describe(), 'line': line, 'shard': spec})
+            elif isinstance(out.exc, TypeError):
+                res.count('typeerror_aborts')
+                lo = [l for l, a in tv.attempts.items() if a[-1][0] == 'error']
+                named = [l for l in lo if l in str(out.exc)]
+                rp = {'engine': 'lines', 'persona': p.describe(), 'line': line, 'shard': spec}
+                if lo and not named:
+                    res.violation(f'C12|real|{year}|typeerror-does-not-name-line|{realwork.key_line(lo[0] + " ")}', f'{lo[0]}: TypeError message {str(out.exc)[:100]!r}', rp)
+                elif lo:
+                    res.violation(f'C12|real|{year}|shipped-definition-wrong-type|{realwork.key_line(named[0] + " ")}',
+                                  f'{year} filer {p.describe().get("status", st)} demanding {line}: the shipped definition of {named[0]} answered with another type than the line declares: {str(out.exc)[:130]}', rp)
+    return res
 
 
 def weird_programs():
@@ -36,6 +104,8 @@ def run_shard(spec, tier, seed):
     if spec['kind'] == 'real':
         from hv import realwork
         return realwork.run_shard('C12', spec, tier, seed)
+    if spec['kind'] == 'lines':
+        return run_lines(spec, tier, seed)
     res = Result()
     if spec['kind'] == 'weird':
         for (t, places, wname), prog in weird_programs():
@@ -96,6 +166,9 @@ def finalize(res, tier):
     c = res.counters
     if c.get('expected_typeerror', 0) < 50 or c.get('expected_value', 0) < 50:
         res.inconclusive.append('convention cases not all run')
+    nl = len(res.sets.get('lines_demanded_and_stored', ()))
+    if nl < 1500:
+        res.inconclusive.append(f'only {nl} shipped lines were demanded by name and stored (< 1500)')
     if c.get('stores_checked', 0) < 1000:
         res.inconclusive.append('fewer than 1000 stores checked')
     return {'exhaustive': bool(res.extra.get('weird_exhaustive'))}
